@@ -39,6 +39,7 @@ pub fn standard_catalog(c: &mut Cluster, strategy: Strategy, tablets: bool) {
         tables: vec![TableDef {
             name: TABLE.into(),
             partitioner: Some("org.apache.cassandra.dht.Murmur3Partitioner".into()),
+            view_of: None,
         }],
     });
     c.keyspaces.push(KeyspaceDef {
